@@ -102,7 +102,7 @@ Lemma end_step (pre : list scope) k name sl par (rest : list scope) (cs : list n
   step (ST (Some id) cs ss (Some (end_of k)) ns sc er lb gl) n (TEnd bare ends) =
   Ok (ST cur' ss' es' er' ns (pre ++ SC k name sl n par :: rest) er lb gl).
 Proof.
-  intros id sc Hk Hend Hns Hc He. cbn [step eregex].
+  intros id sc Hk Hend Hns Hc He. cbn [step]. unfold step_end. cbn [eregex].
   unfold cur_kind, kind_at. cbn [cur scopes]. unfold sc, id. rewrite nth_error_mid. cbn [option_map s_kind].
   assert (Hb : bare && req_named_end k = false).
   { destruct bare; [|reflexivity]. cbn. now apply negb_true_iff in Hend. }
